@@ -1601,7 +1601,7 @@ func (is *indexSearch) updateTSIDsForPrefix(prefix []byte, tsids *uint64set.Set,
 	for ts.NextItem() {
 		item := ts.Item
 		if !bytes.HasPrefix(item, prefix) {
-			return nil
+			break
 		}
 		tail := item[len(prefix):]
 		for i := 0; i < tagSeps; i++ {
